@@ -201,6 +201,7 @@ C10_Continue ==
        /\ outKeys = SelectSeq2(Dedup(cfg.req), {t \in Tasks : done[t] = "ok"})
 C10_NoValueForFailed ==
     /\ phase = "returned" => \A i \in DOMAIN outKeys : done[outKeys[i]] = "ok"
+    /\ \A t \in Tasks : (fin[t] = "ok" /\ runCount[t] > 0) => \A d \in Deps(t) : fin[d] = "ok"     \* no success built on a failed dependency
     /\ obsCache => \A t \in cachedNow : (done[t] = "fail" \/ t \notin Closure) => t \in Cached0
 C10_CachedOk ==
     (obsCache /\ intCount = 0) => \A t \in Tasks : (done[t] = "ok" /\ Cacheable(t)) => t \in cachedNow
